@@ -284,11 +284,29 @@ fn spawn_k<const KK: usize>(d: &ActorDecl) -> Spawned {
         },
         Entry::Builder | Entry::BuilderOwning => {
             let b = hannibal::build(actor);
-            let b = if let Some(t) = d.timeout { b.timeout(rt::dur(t)) } else { b };
-            let b = b.fail_on_timeout(d.fail_on_timeout);
+            let on_base = d.cfg_order & 2 == 0;
+            let fail_first = d.cfg_order & 1 == 1;
+            let b = if on_base {
+                match (d.timeout, fail_first) {
+                    (Some(t), false) => b.timeout(rt::dur(t)).fail_on_timeout(d.fail_on_timeout),
+                    (Some(t), true) => b.fail_on_timeout(d.fail_on_timeout).timeout(rt::dur(t)),
+                    (None, _) => b.fail_on_timeout(d.fail_on_timeout),
+                }
+            } else {
+                b
+            };
             let wc = match d.mailbox {
                 Some(n) => b.bounded(n),
                 None => b.unbounded(),
+            };
+            let wc = if !on_base {
+                match (d.timeout, fail_first) {
+                    (Some(t), false) => wc.timeout(rt::dur(t)).fail_on_timeout(d.fail_on_timeout),
+                    (Some(t), true) => wc.fail_on_timeout(d.fail_on_timeout).timeout(rt::dur(t)),
+                    (None, _) => wc.fail_on_timeout(d.fail_on_timeout),
+                }
+            } else {
+                wc
             };
             let owning = d.entry == Entry::BuilderOwning;
             match (d.strategy, owning) {
